@@ -136,6 +136,16 @@ def strip_tests(text):
 
 
 _src_cache = {}
+GSUBST = []   # [(literal, replacement)] set per template run by @@gsubst
+
+
+def apply_gsubst(t, stats=None):
+    for (a, b) in GSUBST:
+        rx = re.compile(ws_insensitive_regex(a))
+        t, n = rx.subn(b.replace("\\", "\\\\"), t)
+        if stats is not None and n:
+            stats["R10"] += n
+    return t
 
 
 def source(path):
@@ -236,8 +246,8 @@ def expand_macro(text, name, args, path):
 def get_text(path, macro=None, args=None):
     t = source(path)
     if macro:
-        return expand_macro(t, macro, args, path)
-    return t
+        t = expand_macro(t, macro, args, path)
+    return apply_gsubst(t)
 
 
 # ------------------------------------------------------------------------------------------------
@@ -393,7 +403,8 @@ def split_fns(impl_body):
                     j += 1
                 pre = impl_body[last:i]
                 if impl_body[j] == ";":
-                    items.append(dict(kind="other", text=pre + impl_body[i : j + 1]))
+                    items.append(dict(kind="other", text=pre))
+                    items.append(dict(kind="decl", name=m.group(4), sig=impl_body[i:j].rstrip()))
                     i = j + 1
                     last = i
                     continue
@@ -744,6 +755,13 @@ def extract_impl(path, header_lit, macro, args, handle, spec, stats, canary):
             if t and spec.only is None:
                 out.append(t)
             continue
+        if it["kind"] == "decl":
+            seen.add(it["name"])
+            if spec.only is not None and it["name"] not in spec.only:
+                continue
+            dsig, dtext = apply_contract(drop_attrs_and_docs(it["sig"]), spec.fn.get(it["name"], []), spec.ret.get(it["name"], "r"))
+            out.append("%s\n%s;" % (dsig, dtext.rstrip().rstrip(",")))
+            continue
         seen.add(it["name"])
         if it["name"] in spec.skipfn or (spec.only is not None and it["name"] not in spec.only):
             continue
@@ -851,6 +869,7 @@ def generate(template_path, variant, canary=False):
     stats = dict(verbatim_lines=0, added_lines=0, R1=0, R2=0, R4=0, R7=0, R10=0, declared_rewrites=0,
                  silent_obligations=0, trusted_fns=0, assumes=0, R6=0, sources=[])
     raw = open(template_path).read()
+    del GSUBST[:]
 
     def splice_includes(txt, depth=0):
         out_ = []
@@ -891,6 +910,12 @@ def generate(template_path, variant, canary=False):
         toks = line.split()
         d = toks[0]
         if d == "@@variants":
+            i += 1
+            continue
+        if d == "@@gsubst":
+            a_, b_ = line[len("@@gsubst"):].split("=>", 1)
+            GSUBST.append((a_.strip(), b_.strip()))
+            stats["R10"] += 1
             i += 1
             continue
         if d in ("@@struct", "@@enum"):
